@@ -1,13 +1,15 @@
 PROPS = ["CTV.Props.C05"]
 HARNESS = [dict(pkg="./ctutil/", test="TestVerifC05", timeout=900)]
 EXHAUSTIVE = True
-RULE = ("tls.VerifySignature on the full 256x256 grid of (hash, signature) codes for one genuine P-256 signature (exhaustive; a second grid for RSA-2048 "
-        "in the thorough tier); every key of {RSA 1024/2048/2048'/3072, P-224/256/256'/384/521, DSA-2048 (testdata), Ed25519} x hash 1..6: genuine signatures under "
+RULE = ("tls.VerifySignature on the full 256x256 grid of (hash, signature) codes for one genuine P-256 signature (exhaustive); the same grid for an RSA-2048 and the DSA key "
+        "(full in the thorough tier, the bands hash<16 / alg<16 in the quick tier); every key of {RSA 1024/2048/2048'/3072, P-224/256/256'/384/521, DSA-2048 (testdata), Ed25519} x hash 1..6: genuine signatures under "
         "every signature code, other hash codes, a foreign key of the same kind, sampled single-bit flips of signature and message, truncation, extension; "
         "~60 well-formed and malformed DER encodings of genuine (r,s) (zero, negative, non-minimal integers and lengths, indefinite, over-long and 4/5/8-octet "
         "lengths, wrong identifier octets, inner extra octets, trailing octets, every prefix) both through VerifySignature and straight into the asn1 fork; "
-        "typed nil keys and foreign Go types; NewSignatureVerifier on the key set, synthetic RSA moduli 1..8192 bits, non-key values, opt-in on/off; genuine SCTs/STHs "
-        "with 24 resp. 9 single-field mutations each, SerializeSCT/STHSignatureInput against a hand-written RFC 6962 layout; ctutil.VerifySCT on the testdata chains; "
+        "typed nil and zero-valued key pointers and foreign Go types (also through NewSignatureVerifier); NewSignatureVerifier on the key set, synthetic RSA moduli 1..8192 bits, non-key values, opt-in on/off; genuine SCTs/STHs "
+        "with 24 resp. 13 single-field mutations each, SerializeSCT/STHSignatureInput against a hand-written RFC 6962 layout (2^24-1 / 2^24 boundary in the thorough tier); "
+        "ctutil.VerifySCT (plain, embedded) and LogInfo.VerifySCTSignature on the testdata chains for every key x opt-in x 8 variants, the expected entry derived independently "
+        "(standard-library X.509 + own extension stripping); nil entry pointers; "
         "NewFromSignedJSON with valid/invalid documents and signatures. The expected verdict of every case is computed by the harness from the standard library "
         "primitive on (key, digest, r, s). non-trivial = distinct lines whose implementation answer is not `err`")
 TRUSTED = ["crypto/rsa, crypto/ecdsa, crypto/dsa, crypto/* hashes (the primitives: abstract `Prims` in the theorems, the standard library in the harness)",
